@@ -52,6 +52,32 @@ CHECKS["C14"] = dict(
     text="Model and code: debug build and plain build succeed on exactly the same witness assignments, both equal to the source semantics.",
     note=PROG_NOTE + " Marker-to-call-site resolution is added with the debug-symbol family.", design="5 (C14)")
 
+CHECKS["C04"] = dict(
+    category="model_checking",
+    technique="static rules as an executable TLA+ definition (WellFormed) classifying TLC-enumerated near-miss programs; replay of TemplateProgram::new",
+    text="TLC enumerates single-slot near misses of six program schemas plus the well-formed families; WellFormed (Static.tla, written "
+         "from the book) computes accept/reject; the real front end must classify every text the same way.",
+    note=PROG_NOTE + " The static rules are the oracle; where the book is silent (alias redefinition, reserved words as names) no case is generated.",
+    design="5 (C04)")
+CHECKS["C08"] = dict(
+    category="model_checking",
+    technique="TLC checks the list_fold doubling construction against the reference fold for every bound/length; replay of fold programs on every list length",
+    text="Model: ListFoldT (compile.rs construction) = reference left-to-right fold for bounds 2..256(512), every length of the tier, "
+         "five order-sensitive / panicking fold functions. Code: same programs and witness lists replayed on the Bit Machine.",
+    note=PROG_NOTE, design="5 (C08)")
+CHECKS["C09"] = dict(
+    category="model_checking",
+    technique="TLC checks the for_while task-stack construction against the reference loop; replay of loops with every exit iteration",
+    text="Model: ForWhileT (stack W(n+1)=W(n)W(n)adapt, for_while_0, adapt_f) = reference loop (ascending counters, ctx constant, "
+         "first Left ends, nothing evaluated after the exit) for widths 1,2,4,8(16). Code: replay on the Bit Machine.",
+    note=PROG_NOTE, design="5 (C09)")
+CHECKS["C10"] = dict(
+    category="model_checking",
+    technique="TLC-enumerated binding structures; invariant: path lookup of the code-generation scope = lexical scoping; replay with distinct constants per binder",
+    text="Exhaustive (bounded) arrangements of nested blocks, pattern lets, match arms and calls over two names; the value observed at "
+         "each probe must be the one lexical scoping prescribes - in the model (scope/path translation) and in the real compiler.",
+    note=PROG_NOTE, design="5 (C10)")
+
 PENDING = {}
 
 ALL = ["C%02d" % i for i in range(1, 21)]
